@@ -4,6 +4,7 @@ import (
 	"sync"
 
 	verif "github.com/google/badwolf/internal/zzverif"
+	"github.com/google/badwolf/bql/planner/filter"
 	"github.com/google/badwolf/storage"
 	"github.com/google/badwolf/storage/memory"
 	"github.com/google/badwolf/triple"
@@ -21,16 +22,25 @@ func HarnessC07Concurrent() {
 	g.AddTriples(ctx, pool[:1])
 	sc := verif.Param("SCENARIO", -1)
 	if sc < 0 {
-		sc = verif.Choice("scenario", 8)
+		sc = verif.Choice("scenario", 9)
 	}
 	var wg sync.WaitGroup
+	// natively (replay of a schedule-dependent counterexample) the operations of
+	// the read-against-writer scenarios are repeated so that a narrow window has a
+	// chance to be hit; under the engine the scheduler explores the interleavings
+	reps := 1
+	if !verif.Symbolic() && (sc == 6 || sc == 7) {
+		reps = 2000
+	}
 	run := func(fs ...func()) {
 		for _, f := range fs {
 			f := f
 			wg.Add(1)
 			go func() {
 				defer wg.Done()
-				f()
+				for i := 0; i < reps; i++ {
+					f()
+				}
 			}()
 		}
 		wg.Wait()
@@ -141,6 +151,34 @@ func HarnessC07Concurrent() {
 				verif.Assert(n0 == 1, "C07/lookup-sees-earlier-writes")
 			}
 		}
+	case 8: // every read method: the channel is closed also on the error return, and the options value is never written
+		mk := func(s, p, o byte, pk, pa int) *spec {
+			sp := &spec{sb: s, pb: p, ob: o, pk: pk, pa: pa}
+			sp.t = sp.build()
+			return sp
+		}
+		all := []*spec{mk('a', 'p', 'x', 1, 0), mk('a', 'p', 'y', 1, 3), mk('b', 'q', 'x', 0, 0)}
+		g2, err := st.NewGraph(ctx, "?ro")
+		verif.Assume(err == nil)
+		g2.AddTriples(ctx, triples(all))
+		m := verif.Choice("method", 11)
+		q := all[verif.Choice("arg", 3)]
+		lo := &storage.LookupOptions{}
+		bad := verif.Choice("options", 3)
+		switch bad {
+		case 1: // rejected by every lookup: LatestAnchor together with FilterOptions
+			lo.LatestAnchor = true
+			lo.FilterOptions = &filter.StorageOptions{Operation: filter.IsTemporal, Field: filter.PredicateField}
+		case 2:
+			lo.MaxElements = 1
+		}
+		fo := lo.FilterOptions
+		// c19ReadAll ranges over the result channel: a channel that is not closed is a deadlock
+		_, _, rerr, _ := c19ReadAll(g2, m, q, lo, all)
+		verif.Reach("done")
+		verif.Assert((rerr != nil) == (bad == 1), "C07/lookup-error-iff-options-rejected")
+		verif.Assert(lo.LowerAnchor == nil && lo.UpperAnchor == nil && lo.Offset == 0 && lo.FilterOptions == fo &&
+			lo.LatestAnchor == (bad == 1) && lo.MaxElements == map[int]int{0: 0, 1: 0, 2: 1}[bad], "C07/options-not-modified")
 	default: // two lookups sharing default options: closes once, no interference
 		var a, b []*triple.Triple
 		run(func() { a, _ = list(storage.DefaultLookup) }, func() { b, _ = list(storage.DefaultLookup) })
